@@ -38,7 +38,7 @@ def work(i):
         res = []
         for seed, mbqi in CONFIGS:
             t0 = time.process_time()
-            st, _m, _s = solve._check(q, 800, seed=seed, mbqi=mbqi)
+            st, _m, _s = solve._check(q, 1200, seed=seed, mbqi=mbqi)
             res.append((st, round(time.process_time() - t0, 2)))
         out.append((c.name, c.self_cls, ob.name, ob.kind, res))
     return out
